@@ -20,6 +20,8 @@ use std::time::{Duration, Instant};
 pub struct Node {
     pub ctx: Arc<FrontendContext>,
     pub renderer: String,
+    /// one-shot: the next command's response writer fails (BrokenPipe) once this many bytes were written - a client that went away
+    pub fail_write_after: std::sync::Arc<std::sync::Mutex<Option<usize>>>,
     pub user: Option<String>,
 }
 
@@ -65,6 +67,7 @@ impl Node {
             ctx,
             renderer: "json".into(),
             user: Some("bypass".into()),
+            fail_write_after: std::sync::Arc::new(std::sync::Mutex::new(None)),
         }
     }
 
@@ -73,6 +76,7 @@ impl Node {
             ctx: Arc::clone(&self.ctx),
             renderer: self.renderer.clone(),
             user: self.user.clone(),
+            fail_write_after: std::sync::Arc::clone(&self.fail_write_after),
         }
     }
 
@@ -87,8 +91,9 @@ impl Node {
         let ctx = Arc::clone(&self.ctx);
         let renderer = self.renderer.clone();
         let user = self.user.clone();
+        let fail_after = self.fail_write_after.lock().unwrap_or_else(|e| e.into_inner()).take();
         let handle = tokio::spawn(async move {
-            let mut out: Vec<u8> = Vec::new();
+            let mut out = BreakableWriter { buf: Vec::new(), limit: fail_after };
             let r: Box<dyn Renderer> = match renderer.as_str() {
                 "arrow" => Box::new(ArrowRenderer),
                 "unix" => Box::new(UnixRenderer),
@@ -104,6 +109,7 @@ impl Node {
                 r.as_ref(),
             )
             .await;
+            let mut out = out.buf;
             if let Err(e) = res {
                 out.extend_from_slice(format!("\nDISPATCH-IO-ERROR: {e}\n").as_bytes());
             }
@@ -286,5 +292,33 @@ impl Node {
         let flush_errors = self.ctx.shard_manager.flush_all(registry).await;
         let shutdown_errors = self.ctx.shard_manager.shutdown_all().await;
         json!({"flush_errors": format!("{flush_errors:?}"), "shutdown_errors": format!("{shutdown_errors:?}")})
+    }
+}
+
+/// Response sink of `exec`: a plain buffer, or (one shot, `@failwrite n`) a client that disappears after n bytes.
+pub struct BreakableWriter {
+    pub buf: Vec<u8>,
+    pub limit: Option<usize>,
+}
+
+impl tokio::io::AsyncWrite for BreakableWriter {
+    fn poll_write(
+        mut self: std::pin::Pin<&mut Self>,
+        _cx: &mut std::task::Context<'_>,
+        data: &[u8],
+    ) -> std::task::Poll<std::io::Result<usize>> {
+        if let Some(limit) = self.limit {
+            if self.buf.len() + data.len() > limit {
+                return std::task::Poll::Ready(Err(std::io::Error::new(std::io::ErrorKind::BrokenPipe, "client went away (injected)")));
+            }
+        }
+        self.buf.extend_from_slice(data);
+        std::task::Poll::Ready(Ok(data.len()))
+    }
+    fn poll_flush(self: std::pin::Pin<&mut Self>, _cx: &mut std::task::Context<'_>) -> std::task::Poll<std::io::Result<()>> {
+        std::task::Poll::Ready(Ok(()))
+    }
+    fn poll_shutdown(self: std::pin::Pin<&mut Self>, _cx: &mut std::task::Context<'_>) -> std::task::Poll<std::io::Result<()>> {
+        std::task::Poll::Ready(Ok(()))
     }
 }
